@@ -263,6 +263,8 @@ pub fn low_set(n: usize) -> u64 {
 /// Behavior is undefined if `n > 64`.
 #[inline]
 pub unsafe fn low_set_unchecked(n: usize) -> u64 {
+    #[cfg(simple_sds_verif)]
+    crate::verif_hooks::access("bits::low_set_unchecked", n, LOW_SET.len());
     *LOW_SET.get_unchecked(n)
 }
 
@@ -291,6 +293,8 @@ pub fn high_set(n: usize) -> u64 {
 /// Behavior is undefined if `n > 64`.
 #[inline]
 pub unsafe fn high_set_unchecked(n: usize) -> u64 {
+    #[cfg(simple_sds_verif)]
+    crate::verif_hooks::access("bits::high_set_unchecked", n, HIGH_SET.len());
     *HIGH_SET.get_unchecked(n)
 }
 
@@ -376,12 +380,16 @@ pub unsafe fn select(n: u64, rank: usize) -> usize {
 
         // We add `128 - rank - 1` to each byte and mask out all bits except `128`. We get
         // the bit offset for the byte containing the answer by counting trailing zeros.
+        #[cfg(simple_sds_verif)]
+        crate::verif_hooks::access("bits::select/_PS_OVERFLOW", rank + 1, _PS_OVERFLOW.len());
         let mask = (cumulative + *_PS_OVERFLOW.get_unchecked(rank + 1)) & 0x8080_8080_8080_8080;
         let offset = ((mask.trailing_zeros() >> 3) << 3) as usize;
 
         // Subtract the number of set bits in the previous bytes from the rank.
         let relative_rank = rank - (((cumulative << 8) >> offset) as usize & 0xFF);
 
+        #[cfg(simple_sds_verif)]
+        crate::verif_hooks::access("bits::select/_SELECT_IN_BYTE", (relative_rank << 8) + ((n >> offset) as usize & 0xFF), _SELECT_IN_BYTE.len());
         offset + (*_SELECT_IN_BYTE.get_unchecked((relative_rank << 8) + ((n >> offset) as usize & 0xFF)) as usize)
     }
 }
